@@ -31,6 +31,31 @@ CHECKS = {
         text="TLC runs the generated-lexer model and the runtime-lexer model in lock step for every definition of the supported-class family and every input up to the bound, checks that they coincide until the first step at which some rule matches differently under possessive and backtracking semantics (the documented tolerated difference), and prints each run; the harness generates, compiles (a compile failure is a violation) and runs the real generated lexers: symbol table, tokens, positions, elision, EOF and error position must equal the real runtime lexer's on every non-tolerated run; no panic on any run.",
         note="'Compiles' is decided by go build. Runtime lexer bound to the specification by C03. Exhaustive over inputs within the bound; definitions are curated operator-boundary cases plus seeded random ones.",
         ref="4/C05, 3.4, 3.6"),
+    "C01": dict(
+        technique="TLA+ spec Meaning (big-step meaning of the tag language with the context protocol's bookkeeping) evaluated by TLC over a seeded grammar family x exhaustive short + sampled inputs x lookaheads; every case replayed into the real parser (reflect.StructOf grammars)",
+        text="TLC computes, for every grammar of the family, every input and every lookahead, the outcome the documented meaning defines (success/failure and the canonical AST incl. Token/[]Token fields by raw token index); the harness builds the grammar with the real Build, parses the input with ParseString and compares. Exhaustive over token strings up to the bound per grammar plus sampled longer inputs; the grammar family is a seeded sample. The small-step ParserMachine is refined to Meaning by TLC (thorough).",
+        note="Trusted: the generator's rendering of abstract trees to tag text (cross-checked by the equality itself), dynamic anonymous struct types. Grammar-bug constructs excluded. Error identity is not compared.",
+        ref="4/C01, 3.10, 3.11"),
+    "C02": dict(
+        technique="TLA+ spec Meaning with write log threaded through abandoned attempts (theorem NoDeadCapture checked by TLC) over the leak-schema grammar family; ASTs replayed against the real parser",
+        text="For every choice point kind x nesting variant x capture kind of the leak schema, TLC checks that no write performed inside an abandoned attempt targets a struct value that survives it, and computes the AST of the accepted derivation; the real AST must be identical field by field (a field no accepted capture wrote prints as zero).",
+        note="As C01. Verdict only on cases where both the meaning and the code succeed (success/failure agreement is C01's).",
+        ref="4/C02, 3.10"),
+    "C10": dict(
+        technique="TLA+ spec Meaning: theorem ElisionIndependent checked by TLC on the family; real outcomes of all re-spacings of each base token string compared with each other and with the meaning",
+        text="TLC checks on the specification that deleting every elided token never changes the outcome, for every grammar/input/lookahead of the family; on the real parser every group of inputs with identical non-elided tokens (spaces/comments inserted in every gap, at start and end) must give identical outcomes.",
+        note="Grammars of the family do not name elided types and carry no raw-index fields. Verdict from the relation on real outcomes; disagreement with Meaning that keeps the relation is reported as MODEL-DRIFT (exit 0).",
+        ref="4/C10"),
+    "C11": dict(
+        technique="TLA+ spec Meaning: theorem NodeRunsWellFormed checked by TLC; Pos/EndPos/Tokens of every node replayed against the real parser",
+        text="Every production of the family carries Pos, EndPos and Tokens; TLC checks nesting, disjoint ordered siblings, Pos within the run and root-run end on the meaning, and computes each node's run; the real AST's Pos/EndPos/Tokens (mapped to raw token indices through Parser.Lex) must be identical.",
+        note="As C01; verdict on cases where both succeed.",
+        ref="4/C11"),
+    "C13": dict(
+        technique="TLA+ spec Meaning: theorem LookaheadMonotone checked by TLC on grammars without ~ and lookahead groups; relation checked on the real outcomes for all pairs k < k'",
+        text="TLC checks on the specification, for every grammar/input of the family and all pairs of lookaheads in {0,1,2,3,4,50,-1}, that a success at k is reproduced identically at every stronger k'; the same relation is demanded of the real parser's outcomes.",
+        note="Verdict from the relation on real outcomes; disagreement with Meaning is MODEL-DRIFT.",
+        ref="4/C13"),
     "C16": dict(
         technique="TLA+ spec StatefulLexer (Expand, Symbols, RoundTripStable invariant) checked by TLC; marshalled documents compared with the specification's serialised form; MC_StatefulLexer expectations replayed against definitions rebuilt from both JSON routes",
         text="TLC checks that include expansion is idempotent and the symbol table stable when expanded rules are fed back, and prints the serialised form and the expected streams; the harness compares json.Marshal(def) and json.Marshal(def.Rules()) with that form (order, byte-exact names and patterns, action kinds and targets), and replays all inputs up to the bound on lexer.New(unmarshal(...)) for both routes, comparing streams and symbol tables with the original.",
